@@ -32,4 +32,30 @@ CLAIMS = {
         "note": TB,
     },
 }
+CLAIMS.update({
+    "C03": {
+        "text": "Theorems pct_norm_is_rfc (the key's percent-encoding normal form is the RFC 3986 one for every byte string), unreserved_is_ascii, method_gate (a request that is not a plain GET never reads an entry and writes nothing), lookup_uses_url_key. PARTIAL: equality of the whole key with the Spec normal form and its injectivity on components are checked by the correspondence on grammar-generated URL pairs (equivalent spellings and near misses, IPv6 literals, non-ASCII escapes) and by the provenance monitor (a served body's origin token must belong to a request with the same Spec normal form), not by a theorem.",
+        "note": TB + " url.Parse, ResolveReference (dot-segment removal) and EscapedPath are stdlib glue; http(s) URLs with empty Opaque.",
+    },
+    "C04": {
+        "text": "Theorems matcher_selects_matching_reference, reference_records_storing_request, variant_isolation, star_never_matches: for an arbitrary q-value normaliser and an arbitrary hash, the matcher only selects a reference without '*' whose every recorded (field, value) equals the request's normalised value, and what is recorded is the storing request's normalised values of all fields of all Vary lines; hence a request matches a reference only if it agrees with the storing request on every nominated field. PARTIAL: entry/reference pairing across a history (needs hash injectivity) is checked by the token-provenance monitor and the correspondence.",
+        "note": TB,
+    },
+    "C07": {
+        "text": "Theorems unsafe_invalidates (for every unsafe method without only-if-cached whose origin reply is 2xx/3xx the exchange reads the index of its URL key and deletes that key and the id of EVERY reference the store returned, whatever the store answers), safe_table (the code's safe-method table, regenerated, is within the IANA safe list). Location / Content-Location handling and 'nothing stored earlier is reused later' are checked by the monitor on the implementation's trace (including that only keys of the target and same-origin locations are deleted).",
+        "note": TB,
+    },
+    "C08": {
+        "text": "Theorems freshen_writes_back (after a 304 — foreground or background — the entry is written back under its id with merged fields, unchanged status/body and the validation's timestamps), merge_keeps_content_length, replace_keeps_other_variants (a full reply keeps every other reference of the index except exact duplicates). The monitor compares every write-back on the implementation with an independently written RFC 9111 §4.3.4 merge and checks the index after replacement.",
+        "note": TB,
+    },
+    "C09": {
+        "text": "Theorem fresh_match_is_served (PARTIAL, stated in the file): for a GET without Cache-Control, when the store returns a matching reference and its entry, and the entry has max-age above its RFC age and no unqualified no-cache, the model serves it without contacting the origin. Equivalent spellings, heuristic freshness, all backends and reopen are covered by the liveness monitor on the implementation (expected-hit oracle written from the Spec) and the correspondence.",
+        "note": TB,
+    },
+    "C19": {
+        "text": "Theorems written_keys_determined (keys written are a function of URL key, Vary lines and normalised selecting values only), no_identical_references, index_growth_bounded, invalidate_complete. PARTIAL: the induction over histories giving keys(store) ⊆ S(A) is not done in Lean; the monitor checks key count and index length against the number of distinct (resource, Vary, selecting values) combinations over long repetitions of a finite request alphabet.",
+        "note": TB,
+    },
+})
 NOT_APPLICABLE = {("C%02d" % i): "check not built yet (work in progress; DESIGN.md §10 gives the order of construction)" for i in range(1, 21)}
